@@ -16,6 +16,8 @@
   * at_most_one_end_or_error, exactly_one_end_or_error, connect_failure_fires_error
   * nothing_relayed_after_end
   * ignore_mode_fires_no_end_or_error_hook
+  * round 3: `Input.hookKill` (flow.kill() inside any hook) is part of every schedule; *_any_sockets variants hold when
+    write_eof raises OSError (initX); kill_in_message_hook_still_relays, kill_is_plain_completion
 -/
 import MitmVerif.Lemmas.C29
 namespace MitmVerif.Props.C29
@@ -79,7 +81,7 @@ theorem addon_edit_is_what_is_sent (st : State) (to : Side) (m : Msg) (e : Optio
   · simp only [hp]
     have := drain_ext st.queue
       (emit { st with pending := .none, msgs := st.msgs ++ [editMsg m e] } (.send to (editMsg m e).content))
-    obtain ⟨-, -, -, hm, r, ht⟩ := this
+    obtain ⟨-, -, -, hm, ⟨r, ht⟩, -, -⟩ := this
     refine ⟨?_, r, ?_⟩
     · simpa [hed] using hm
     · simpa [hed] using ht
@@ -105,6 +107,8 @@ theorem half_close_propagated_while_other_direction_flows (f c : Bool) (ins : Li
   have hF := reach .tcp f c ins
   have hf := reach_flow .tcp f c ins
   have hpr := reach_proto .tcp f c ins
+  have hfl1 : (run (init .tcp f c) ins).cEofFail = false := (run_cfg (init .tcp f c) ins).2.2.2.1
+  have hfl2 : (run (init .tcp f c) ins).sEofFail = false := (run_cfg (init .tcp f c) ins).2.2.2.2
   generalize run (init .tcp f c) ins = st at *
   intro st0 st1
   have hq : st.queue = [] := hF.2.2 hp
@@ -123,8 +127,8 @@ theorem half_close_propagated_while_other_direction_flows (f c : Bool) (ins : Li
     rw [e1]; cases s <;> simp_all [State.setConn]
   refine ⟨?_, hs1.1, hs1.2.1, ?_, ?_, ?_⟩
   · rw [e1]; cases s <;> simp [State.setConn, st0]
-  · rw [e1]; cases s <;> simp_all [State.setConn, State.conn, Side.other, emit, applyClose]
-  · rw [e1]; cases s <;> simp_all [State.setConn, State.conn, Side.other, emit, applyClose, st0]
+  · rw [e1]; cases s <;> simp_all [State.setConn, State.conn, Side.other, emit, applyClose, State.eofFail]
+  · rw [e1]; cases s <;> simp_all [State.setConn, State.conn, Side.other, emit, applyClose, State.eofFail, st0]
   · intro d e
     obtain ⟨a, b, c', d'⟩ := hs1
     have hd : step st1 (.data s.other d) = handleData st1 s.other d := by
@@ -155,7 +159,7 @@ theorem half_close_emitted_once_quiescent (f c : Bool) (ins : List Input) (s : S
     Output.close s.other true ∈ (run (init .tcp f c) ins).trace := by
   obtain ⟨hF, hH⟩ := full2_run _ ins (full2_init .tcp f c)
   have hq := hF.2.2 hp
-  rcases hH (reach_proto .tcp f c ins) hph s hr with hm | hm
+  rcases hH (run_cfg (init .tcp f c) ins).2.2.2.1 (run_cfg (init .tcp f c) ins).2.2.2.2 (reach_proto .tcp f c ins) hph s hr with hm | hm
   · rw [hq] at hm; cases hm
   · exact hm
 
@@ -198,7 +202,8 @@ def peersFinished (st : State) : Prop :=
   | .udp => st.client.canRead = false ∨ st.server.canRead = false
 
 private theorem exactly_one_of_full (st : State) (h : Full st) (hf : st.flow = true)
-    (hidle : st.phase ≠ .idle) (hp : st.pending = .none) (hclosed : peersFinished st) :
+    (hidle : st.phase ≠ .idle) (hp : st.pending = .none) (hclosed : peersFinished st)
+    (hd1 : st.cEofFail = false) (hd2 : st.sEofFail = false) :
     st.trace.countP isEndOrError = 1 := by
   unfold peersFinished at hclosed
   obtain ⟨hI, hK, hQ⟩ := h
@@ -217,7 +222,7 @@ private theorem exactly_one_of_full (st : State) (h : Full st) (hf : st.flow = t
       cases hpr : st.proto with
       | tcp =>
         rw [hpr] at hclosed
-        have := k3 hph hpr
+        have := k3 hph hpr hd1 hd2
         simp [hq, hclosed.1, hclosed.2] at this
       | udp =>
         rw [hpr] at hclosed
@@ -236,6 +241,7 @@ theorem exactly_one_end_or_error (p : Proto) (c : Bool) (ins : List Input)
     (hclosed : peersFinished (run (init p true c) ins)) :
     (run (init p true c) ins).trace.countP isEndOrError = 1 :=
   exactly_one_of_full _ (reach p true c ins) (reach_flow p true c ins) hidle hp hclosed
+    (run_cfg (init p true c) ins).2.2.2.1 (run_cfg (init p true c) ins).2.2.2.2
 
 /-- a refused/failed `OpenConnection` makes the layer fire the error hook (and nothing else) at once -/
 theorem connect_failure_fires_error (st : State) (hph : st.phase ≠ .idle) (hp : st.pending = .connect)
@@ -278,6 +284,102 @@ theorem ignore_mode_fires_no_end_or_error_hook (p : Proto) (c : Bool) (ins : Lis
   have := hI.2.2.1
   unfold cnt at this
   rw [this, reach_flow]; simp
+
+/-! ### round 3: dead sockets (`except OSError` branch of `close_connection`) and `flow.kill()` inside hooks
+
+  `Input` now has `hookKill` (a hook completes after the addon called `flow.kill()`), so every theorem above —
+  stated for all `ins : List Input` — already covers kills at any point.  The theorems below additionally hold for
+  `initX … cEofFail sEofFail`: either socket may raise OSError on `write_eof`, in which case the half-close
+  command leaves the connection CLOSED instead of write-closed. -/
+
+private theorem reachX (p : Proto) (f c cd sd : Bool) (ins : List Input) : Full2 (run (initX p f c cd sd) ins) :=
+  full2_run _ _ (full2_initX p f c cd sd)
+
+/-- exact relay per direction, with dead sockets and kills: every interleaving of the two directions, with hooks pending -/
+theorem relay_exact_per_direction_any_sockets (p : Proto) (c cd sd : Bool) (ins : List Input) (s : Side) :
+    sentTo s (run (initX p true c cd sd) ins).trace ++ inFlightTo s (run (initX p true c cd sd) ins)
+      = recorded s (run (initX p true c cd sd) ins).flowMessages :=
+  exact_of_inv _ (reachX p true c cd sd ins).1.1 (run_cfg (initX p true c cd sd) ins).1 s
+
+theorem at_most_one_end_or_error_any_sockets (p : Proto) (f c cd sd : Bool) (ins : List Input) :
+    (run (initX p f c cd sd) ins).trace.countP isEndOrError ≤ 1 := by
+  have hI := (reachX p f c cd sd ins).1.1
+  unfold TrInv at hI
+  have := hI.2.2.1
+  unfold cnt at this
+  rw [this]; split <;> omega
+
+theorem nothing_relayed_after_end_any_sockets (p : Proto) (f c cd sd : Bool) (ins : List Input)
+    (pre post : List Output) (o : Output) :
+    (run (initX p f c cd sd) ins).trace = pre ++ o :: post → isEndOrError o = true →
+    ∀ x ∈ post, isSend x = false ∧ isHook x = false := by
+  intro htr ho
+  have hI := (reachX p f c cd sd ins).1.1
+  unfold TrInv at hI
+  have hs := hI.2.2.2.1
+  rw [htr, scan_append] at hs
+  simp only [scan, ho, Bool.or_true, Bool.and_eq_true] at hs
+  have key : ∀ l : List Output, scan true l = true → ∀ x ∈ l, isSend x = false ∧ isHook x = false := by
+    intro l
+    induction l with
+    | nil => simp
+    | cons y t ih =>
+      intro h x hx
+      simp only [scan, Bool.true_or, Bool.and_eq_true, if_true] at h
+      rcases List.mem_cons.1 hx with rfl | hx
+      · simpa [quiet] using h.1
+      · exact ih h.2 x hx
+  exact key post hs.2.2
+
+/-- even when `write_eof` fails, the layer itself never yields a full close before the relay ends -/
+theorem full_close_only_when_ending_any_sockets (p : Proto) (f c cd sd : Bool) (ins : List Input) (s : Side)
+    (hph : (run (initX p f c cd sd) ins).phase ≠ .done) : Output.close s false ∉ (run (initX p f c cd sd) ins).trace := by
+  intro hmem
+  have hI := (reachX p f c cd sd ins).1.1
+  unfold TrInv at hI
+  obtain ⟨-, -, -, -, -, -, -, -, -, -, -, h12, -⟩ := hI
+  apply hph
+  apply h12
+  simp only [hasFull, List.any_eq_true]
+  exact ⟨_, hmem, rfl⟩
+
+/-- the dead-socket branch itself: a half-close command on a socket whose `write_eof` raises leaves it CLOSED -/
+theorem dead_socket_half_close_is_full (c : Conn) (hw : c.canWrite = true) : applyClose c true true = Conn.shut := by
+  simp [applyClose, hw]
+
+/-- **Kill inside the message hook does not stop the relay**: the message is still recorded and is the very next
+    `SendData` — exactly as if the addon had not killed the flow. -/
+theorem kill_in_message_hook_still_relays (st : State) (to : Side) (m : Msg)
+    (hph : st.phase ≠ .idle) (hp : st.pending = .msgHook to m) :
+    (step st .hookKill).msgs = st.msgs ++ [m] ∧
+    ∃ rest, (step st .hookKill).trace = st.trace ++ .send to m.content :: rest := by
+  have hf := applyKill_fields st
+  unfold step
+  split
+  · rename_i h; exact absurd h hph
+  · simp only [hp]
+    have := drain_ext (applyKill st).queue
+      (emit { applyKill st with pending := .none, msgs := (applyKill st).msgs ++ [m] } (.send to m.content))
+    obtain ⟨-, -, -, hm, ⟨r, ht⟩, -, -⟩ := this
+    refine ⟨?_, r, ?_⟩
+    · simpa [hf] using hm
+    · simpa [hf] using ht
+
+/-- a kill in any hook is, for the layer, the same as the plain completion of that hook on a flow marked killed -/
+theorem kill_is_plain_completion (st : State) :
+    step st .hookKill = st ∨ step st .hookKill = step (applyKill st) (.hookDone none) :=
+  step_hookKill st
+
+/-- the end/error accounting with kills and dead sockets: still exactly one once the flow is over, provided the
+    sockets are not dead (with a dead socket the missing `ConnectionClosed` is owed by the environment) -/
+example : (run (init .tcp true true) [.start, .hookKill, .data .client [1], .hookKill, .closed .client false,
+    .closed .server false, .hookDone none]).trace =
+    [.hook .start, .hook (.message true [1]), .send .server [1], .close .server true, .close .client false, .hook .end_] := by
+  decide
+
+/-- dead server socket: the half-close towards the server leaves it CLOSED, so the end needs no second close of it -/
+example : (run (initX .tcp true true false true) [.start, .hookDone none, .closed .client false, .closed .server true]).trace =
+    [.hook .start, .close .server true, .close .client false, .hook .end_] := by decide
 
 /-! ### the hypotheses are satisfiable and the model is not constant -/
 
